@@ -5,6 +5,7 @@ package main
 import (
 	"encoding/json"
 	"errors"
+	"fmt"
 
 	"github.com/pion/rtp"
 )
@@ -119,7 +120,20 @@ func vlaDecode(prev, b []byte, usePrev bool) Ev {
 	n := -1
 	var err error
 	r, _ := guard(func() { n, err = v.Unmarshal(b) })
-	return Ev{"res": outcome(r, err), "n": n, "v": projVLA(v)}
+	proj := projVLA(v)
+	// the decoded value is the caller's: it appends to the bitrate list of every layer (writes into spare capacity
+	// only); no other layer may change
+	appendSafe := true
+	if r == "ok" && err == nil {
+		before := fmt.Sprint(proj)
+		guard(func() {
+			for i := range v.ActiveSpatialLayer {
+				_ = append(v.ActiveSpatialLayer[i].TargetBitrates, 7777777, 8888888)
+			}
+		})
+		appendSafe = fmt.Sprint(projVLA(v)) == before
+	}
+	return Ev{"res": outcome(r, err), "n": n, "v": proj, "append_safe": appendSafe}
 }
 
 func runC19(raw json.RawMessage, w *Writer) {
